@@ -162,6 +162,34 @@ def binding(v: int, w: int, g: int, a: int, b: int, s1: int, s2: int, a2: int, b
     return True
 
 
+@harness
+def noneheld(v: int, nt: int, t: int, s1: int, s2: int) -> bool:
+    """An element whose value is None (allow_none) is held like any other: second request, any spelling, no re-run."""
+    nt, t, s1, s2 = pick(nt, 0, 2), pick(t, 0, 2), pick(s1, 0, 3), pick(s2, 0, 3)
+    with notrace():
+        m = new_model("NH")
+        S = m.new_space("S")
+        m.hit = hit
+        S.allow_none = True
+        S.v, S.nt = 0, -1
+        S.new_cells("opt", formula="def opt(t):\n    hit(0, t)\n    return None if t == nt else v + t\n")
+        S.new_cells("use", formula="def use(t):\n    hit(1, t)\n    o = opt(t)\n    return -1 if o is None else o\n")
+        S.v, S.nt = v, nt
+    opt = S.cells["opt"]
+    exp = None if t == nt else v + t
+    for i, sp in enumerate((s1, s2)):
+        label("opt t=%d spelling %d (None at %d)" % (t, sp, nt))
+        r = call(opt, t) if sp == 0 else call(opt, t=t) if sp == 1 else call(opt.__getitem__, t) if sp == 2 else call(S.cells["use"], t)
+        want = exp if sp != 3 else (-1 if exp is None else exp)
+        if not check(r[0] == "ok" and ((r[1] is None) if want is None else r[1] == want), "value of a possibly-None element", lambda: (r, want)):
+            return False
+        with notrace():
+            runs = [h for h in ctx.hits if h[0] == 0]
+        if not check(runs == [(0, t)], "formula of an element holding None ran again", lambda: runs):
+            return False
+    return True
+
+
 _PRE = dag_pre(N)
 _NAT = dict(v0=1, v1=2, v2=3, z=4, g=5, p1_1=0, p2_1=-1, p1_2=1, p2_2=0)
 
@@ -198,6 +226,11 @@ QUERIES = [
           bounds=lambda tier: {"cells": "def m2(a, b=1)", "spellings": SP2, "arguments": "a in 0..2, b in 0..2 (quick: b in 0..1)", "requests": "two spellings of the same arguments, then a third request",
                                "values": "v, w, g unbounded"},
           outside=["cells with more than two parameters", "*args / keyword-only parameters"]),
+    Query("noneheld", noneheld, pre=["0 <= nt <= 2", "0 <= t <= 2", "0 <= s1 < 4", "0 <= s2 < 4"],
+          partitions=lambda tier, seed: [dict(s1=k) for k in range(4)],
+          natives=[dict(v=3, nt=1, t=1, s1=0, s2=3), dict(v=3, nt=1, t=1, s1=3, s2=1), dict(v=3, nt=2, t=1, s1=2, s2=0)],
+          bounds=lambda tier: {"model": "opt(t) returns None at one symbolic t (allow_none), use(t) calls it", "spellings": ["opt(t)", "opt(t=t)", "opt[t]", "from a formula"], "t": "0..2"},
+          outside=[]),
     Query("shapes", shapes,
           pre=_PRE + ["0 <= sh < 6", "0 <= t1 <= 1"],
           partitions=lambda tier, seed: product(sh=list(range(CALL_SHAPES)), dflt=[False, True]),
